@@ -224,12 +224,17 @@ def cubic_coeffs(P, fnode, pre_ok):
     if idx is None:
         raise P.Untranslatable('cubic: `coeffs = [coeff3, coeff2, coeff1, coeff0]` not found')
     tail = [ast.unparse(s) for s in body[idx + 1:]]
-    # what follows may only select a root (its exact form is free: the theorem is about any root); it must start with
-    # np.roots on exactly these coefficients, end by storing alpha, and never touch the coefficients again
-    if not tail or tail[0] != 'roots = np.roots(coeffs)' or tail[-1] not in ('self.alpha = alpha', 'self._alpha = alpha') \
-            or any(isinstance(x, ast.Name) and isinstance(x.ctx, ast.Store) and x.id.startswith('coeff') and x.id != 'coeff'
-                   for s in body[idx + 1:] for x in ast.walk(s)):
-        raise P.Untranslatable('cubic: the statements after `coeffs = [...]` are not a root selection: ' + ' | '.join(tail)[:200])
+    # The root selection is hand-modelled (Model/C04.lean: selectAlpha) and proved to return a real root or raise FinError
+    # (Props/C04c: select_alpha_*).  Its source text must therefore be exactly the one modelled (commit 220a8a5); any other
+    # selection — e.g. the earlier `np.min([coeff.real for coeff in roots if coeff.real > 0])`, which took the real part of
+    # complex roots — makes generation fail, i.e. breaks the obligations that depend on it.
+    want = ['roots = np.roots(coeffs)',
+            'real_roots = [coeff.real for coeff in roots if coeff.real > 0 and abs(coeff.imag) <= 1e-10 * max(1.0, abs(coeff.real))]',
+            "if len(real_roots) == 0:\n    raise FinError('No positive real root for alpha.')",
+            'alpha = np.min(real_roots)']
+    if tail[:-1] != want or len(tail) != 5 or tail[-1] not in ('self.alpha = alpha', 'self._alpha = alpha'):
+        raise P.Untranslatable('cubic: the root selection after `coeffs = [...]` is not the modelled one '
+                               '(real roots only, FinError if none, smallest): ' + ' | '.join(tail)[:300])
     g = copy.deepcopy(fnode)
     g.body = body[:idx] + [ast.Return(value=ast.Tuple(elts=[ast.Name(id=n, ctx=ast.Load()) for n in
                                                               ('coeff3', 'coeff2', 'coeff1', 'coeff0')], ctx=ast.Load()))]
